@@ -215,6 +215,9 @@ def check_start_index(case, ctx):
     base = {"'0'": 0, "'1'": 1}.get(repr(value))
     enc["start_index"] = base if base is not None else 0
     enc["start_index_attr"] = value
+    if enc.get("fill_value") == 0 and enc["start_index"] != 1:
+        # (the encoding was drawn for a one-based table: 0 can only be the fill value there)
+        enc["fill_value"] = None
     spec = {"conv": "ugrid", "geom": dict(mesh, enc=enc), "extra": {}, "vars": [], "mode": "raw"}
     ds = specs.build(spec)
     with warnings.catch_warnings(record=True) as caught:
